@@ -70,6 +70,146 @@ namespace c14
         static int id(const Tracked &x) { return x.id(); }
     };
 
+    // ------------------------------------------------------------ element whose constructors throw on schedule
+    // The harness arms (kind, countdown) right before ONE call into the container: the countdown-th
+    // construction of that kind (value/default, copy, move) throws InjectedFault before anything is
+    // constructed or the source is touched. Destructors and assignments never throw.
+    struct InjectedFault
+    {
+    };
+    struct Throwing : Tracked
+    {
+        enum
+        {
+            NONE,
+            VALUE,
+            COPY,
+            MOVE
+        };
+        static inline int armed = NONE, countdown = 0;
+        static void arm(int kind, int n)
+        {
+            armed = kind;
+            countdown = n;
+        }
+        static void disarm() { armed = NONE; }
+        static int tick(int kind)
+        {
+            if (kind == armed && countdown > 0 && --countdown == 0)
+            {
+                armed = NONE;
+                throw InjectedFault();
+            }
+            return 0;
+        }
+        Throwing() : Tracked(tick(VALUE)) {}
+        Throwing(int id) : Tracked(tick(VALUE) + id) {}
+        Throwing(const Throwing &o) : Tracked((tick(COPY), static_cast<const Tracked &>(o))) {}
+        Throwing(Throwing &&o) : Tracked((tick(MOVE), static_cast<Tracked &&>(o))) {} // deliberately not noexcept
+        Throwing &operator=(const Throwing &) = default;
+        Throwing &operator=(Throwing &&) = default;
+    };
+    template <> struct El<Throwing>
+    {
+        static constexpr const char *name = "Throwing";
+        static constexpr bool tracked = true;
+        static constexpr int default_id = 0;
+        static Throwing make(int id) { return Throwing(id); }
+        static int arg(int id) { return id; }
+        static int id(const Throwing &x) { return x.id(); }
+    };
+
+    // ------------------------------------------------------------ harness-owned iterators
+    // InIt: a genuine single-pass input iterator. All copies share one source; advancing any copy
+    // consumes the source, and using a copy that was left behind (or reading at the end) is reported.
+    // FwdIt: a multi-pass forward iterator over the same array.
+#ifdef C14_PORTABLE
+    using input_tag = igris::input_iterator_tag;
+    using forward_tag = igris::forward_iterator_tag;
+#else
+    using input_tag = std::input_iterator_tag;
+    using forward_tag = std::forward_iterator_tag;
+#endif
+    inline std::string &iter_ctx()
+    {
+        static std::string c;
+        return c;
+    }
+    template <class T> struct InSrc
+    {
+        const T *data;
+        size_t n, pos = 0;
+        unsigned long gen = 0;
+    };
+    template <class T> struct InIt
+    {
+        using iterator_category = input_tag;
+        using value_type = T;
+        using difference_type = ptrdiff_t;
+        using pointer = const T *;
+        using reference = const T &;
+        InSrc<T> *s = nullptr;
+        unsigned long gen = 0;
+        bool at_end() const { return !s || s->pos >= s->n; }
+        void usable(const char *what) const
+        {
+            if (s && gen != s->gen)
+                vf::fail(("input-range:" + iter_ctx() + ":stale-copy-used").c_str(),
+                         "%s of an input-iterator copy after another copy had advanced the shared source (source at %zu of %zu): the range was traversed twice", what,
+                         s->pos, s->n);
+            if (at_end())
+                vf::fail(("input-range:" + iter_ctx() + ":used-at-end").c_str(), "%s of an input iterator that is at the end of its range", what);
+        }
+        const T &operator*() const
+        {
+            usable("dereference");
+            return s->data[s->pos];
+        }
+        InIt &operator++()
+        {
+            usable("increment");
+            s->pos++;
+            gen = ++s->gen;
+            return *this;
+        }
+        struct Proxy
+        {
+            T v;
+            const T &operator*() const { return v; }
+        };
+        Proxy operator++(int)
+        {
+            Proxy p{**this};
+            ++*this;
+            return p;
+        }
+        friend bool operator==(const InIt &a, const InIt &b) { return a.at_end() == b.at_end(); } // only "== end" is meaningful
+        friend bool operator!=(const InIt &a, const InIt &b) { return !(a == b); }
+    };
+    template <class T> struct FwdIt
+    {
+        using iterator_category = forward_tag;
+        using value_type = T;
+        using difference_type = ptrdiff_t;
+        using pointer = const T *;
+        using reference = const T &;
+        const T *p = nullptr;
+        const T &operator*() const { return *p; }
+        FwdIt &operator++()
+        {
+            ++p;
+            return *this;
+        }
+        FwdIt operator++(int)
+        {
+            FwdIt r = *this;
+            ++p;
+            return r;
+        }
+        friend bool operator==(const FwdIt &a, const FwdIt &b) { return a.p == b.p; }
+        friend bool operator!=(const FwdIt &a, const FwdIt &b) { return a.p != b.p; }
+    };
+
     // ------------------------------------------------------------ placement of the object under test
     static const uint64_t CANARY = 0xC0FFEE5AA5C14C14ULL;
     template <class C> struct Box
@@ -288,72 +428,130 @@ namespace c14
             }
             return t;
         }
-        template <size_t... I> SV *place_il(void *w, const std::vector<int> &ids, std::index_sequence<I...>)
+        // ---- fault injection (T = Throwing only): armed around exactly one call into the container
+        static constexpr bool throwing = std::is_same_v<T, Throwing>;
+        int fault_kind = 0, fault_countdown = 0; // set by the workload before apply(); consumed by it
+        bool fault_fired = false;
+        template <class F> bool guarded(F &&f)
         {
-            if constexpr (has_il<SV, T>)
-                return new (w) SV{E::make(ids[I])...};
+            if constexpr (throwing)
+            {
+                int k = fault_kind, c = fault_countdown;
+                fault_kind = 0;
+                if (!k)
+                {
+                    f();
+                    return false;
+                }
+                Throwing::arm(k, c);
+                try
+                {
+                    f();
+                }
+                catch (const InjectedFault &)
+                {
+                    Throwing::disarm();
+                    fault_fired = true;
+                    if (vf::verbose())
+                        printf("    -> injected fault: construction #%d of kind %d threw\n", c, k);
+                    trace += k == Throwing::VALUE ? "!value-ctor-threw" : k == Throwing::COPY ? "!copy-ctor-threw" : "!move-ctor-threw";
+                    return true;
+                }
+                Throwing::disarm();
+                return false;
+            }
             else
-                return new (w) SV;
+            {
+                f();
+                return false;
+            }
         }
-        template <size_t K = 0> SV *place_il_n(void *w, const std::vector<int> &ids)
+        // after a throwing operation that is allowed to leave a changed (but valid) container: every element
+        // it exposes must be a live object, it must stay within N and the canaries
+        void exposed_live(H &h)
+        {
+            Tracked::check();
+            if (!h.canaries_intact())
+                bad("bounds", "canary-after-throw", "a word next to the container object was overwritten");
+            if (h->size() > N)
+                bad("bounds", "size>N-after-throw", "size()=%zu exceeds N=%zu after an element constructor threw", h->size(), N);
+            for (size_t i = 0; i < h->size(); i++)
+                (void)E::id((*h)[i]); // a slot that holds no object is reported by the registry
+            Tracked::check();
+        }
+        void live_after_throw(size_t live)
+        {
+            if constexpr (E::tracked)
+                if (Tracked::live_count() != live)
+                    bad("lifetime", "live-count-after-throw",
+                        "%zu Tracked objects are alive after an element constructor threw, the containers report exactly %zu elements", Tracked::live_count(), live);
+            VF_OK("after a throwing element constructor: exposed elements are live objects, live == size(), size() <= N");
+        }
+        void resync()
+        {
+            m.clear();
+            for (size_t i = 0; i < v->size(); i++)
+                m.push_back(E::id((*v)[i]));
+        }
+        template <size_t... I> bool create_il(H &w, bool bx, const std::vector<int> &ids, std::index_sequence<I...>)
+        {
+            std::initializer_list<T> il = {E::make(ids[I])...};
+            return guarded([&] { w.create(bx, [&](void *where) { return new (where) SV(il); }); });
+        }
+        template <size_t K = 0> bool create_il_n(H &w, bool bx, const std::vector<int> &ids)
         {
             if (ids.size() == K)
-            {
-                if constexpr (K == 0)
-                {
-                    if constexpr (has_il<SV, T>)
-                    {
-                        std::initializer_list<T> il = {};
-                        return new (w) SV(il);
-                    }
-                    else
-                        return new (w) SV;
-                }
-                else
-                    return place_il(w, ids, std::make_index_sequence<K>());
-            }
+                return create_il(w, bx, ids, std::make_index_sequence<K>());
             if constexpr (K < 2 * N)
-                return place_il_n<K + 1>(w, ids);
+                return create_il_n<K + 1>(w, bx, ids);
             else
-                return nullptr;
+                return false;
         }
 
         void apply(const Op &o)
         {
             begin_op(o);
+            iter_ctx() = flav() + ":" + op;
+            fault_fired = false;
             switch (o.kind)
             {
+            // single-element appends: when the element constructor throws nothing may have changed
             case S_PUSH_FRESH:
             {
                 int id = next++;
+                bool thrown;
                 {
                     T x = E::make(id);
-                    v->push_back(x);
+                    thrown = guarded([&] { v->push_back(x); });
                 }
-                if (m.size() < N)
+                if (!thrown && m.size() < N)
                     m.push_back(id);
                 break;
             }
             case S_PUSH_ALIAS:
             {
                 int id = m[o.a];
-                v->push_back((*v)[o.a]);
-                if (m.size() < N)
+                if (!guarded([&] { v->push_back((*v)[o.a]); }) && m.size() < N)
                     m.push_back(id);
                 break;
             }
             case S_EMPLACE_BACK:
             {
                 int id = next++;
-                v->emplace_back(E::arg(id));
-                if (m.size() < N)
+                if (!guarded([&] { v->emplace_back(E::arg(id)); }) && m.size() < N)
                     m.push_back(id);
                 break;
             }
             case S_RESIZE:
             {
-                v->resize((size_t)o.a);
-                m.resize(std::min((size_t)o.a, N), E::default_id);
+                if (guarded([&] { v->resize((size_t)o.a); }))
+                {
+                    exposed_live(v);
+                    live_after_throw(v->size());
+                    resync();
+                }
+                else
+                    m.resize(std::min((size_t)o.a, N), E::default_id);
                 break;
             }
             case S_ERASE_RANGE:
@@ -371,7 +569,11 @@ namespace c14
             {
                 H w;
                 const SV &src = *v;
-                w.create(o.a, [&](void *where) { return new (where) SV(src); });
+                if (guarded([&] { w.create(o.a, [&](void *where) { return new (where) SV(src); }); }))
+                {
+                    w.release(); // the object never came to life; the source must be untouched (verified below)
+                    break;
+                }
                 verify(w, m, 2 * m.size());
                 verify(v, m, 2 * m.size());
                 replace(w);
@@ -382,7 +584,14 @@ namespace c14
             {
                 H w;
                 SV &src = *v;
-                w.create(o.a, [&](void *where) { return new (where) SV(std::move(src)); });
+                if (guarded([&] { w.create(o.a, [&](void *where) { return new (where) SV(std::move(src)); }); }))
+                {
+                    w.release();
+                    exposed_live(v); // some source elements may be moved-from now
+                    live_after_throw(v->size());
+                    resync();
+                    break;
+                }
                 if (v->size() > N)
                     bad("bounds", "size>N", "moved-from source reports size()=%zu", v->size());
                 // whatever the source still reports as its elements is what its destructor will destroy
@@ -395,7 +604,16 @@ namespace c14
             {
                 std::vector<int> ids = fresh_ids(o.a);
                 H t = make_other(ids);
-                *v = (const SV &)*t;
+                if (guarded([&] { *v = (const SV &)*t; }))
+                {
+                    exposed_live(v);
+                    live_after_throw(v->size() + ids.size());
+                    verify(t, ids, v->size() + ids.size()); // the source of a copy is untouched
+                    t.destroy();
+                    t.release();
+                    resync();
+                    break;
+                }
                 verify(v, ids, 2 * ids.size());
                 verify(t, ids, 2 * ids.size());
                 t.destroy();
@@ -407,7 +625,15 @@ namespace c14
             {
                 std::vector<int> ids = fresh_ids(o.a);
                 H t = make_other(ids);
-                *t = (const SV &)*v;
+                if (guarded([&] { *t = (const SV &)*v; }))
+                {
+                    exposed_live(t);
+                    live_after_throw(t->size() + m.size());
+                    verify(v, m, t->size() + m.size());
+                    t.destroy();
+                    t.release();
+                    break;
+                }
                 verify(t, m, 2 * m.size());
                 verify(v, m, 2 * m.size());
                 t.destroy();
@@ -418,7 +644,16 @@ namespace c14
             {
                 std::vector<int> ids = fresh_ids(o.a);
                 H t = make_other(ids);
-                *v = std::move(*t);
+                if (guarded([&] { *v = std::move(*t); }))
+                {
+                    exposed_live(v);
+                    exposed_live(t);
+                    live_after_throw(v->size() + t->size());
+                    t.destroy();
+                    t.release();
+                    resync();
+                    break;
+                }
                 if (t->size() > N)
                     bad("bounds", "size>N", "moved-from source reports size()=%zu", t->size());
                 verify(v, ids, ids.size() + t->size());
@@ -431,7 +666,16 @@ namespace c14
             {
                 std::vector<int> ids = fresh_ids(o.a);
                 H t = make_other(ids);
-                *t = std::move(*v);
+                if (guarded([&] { *t = std::move(*v); }))
+                {
+                    exposed_live(v);
+                    exposed_live(t);
+                    live_after_throw(v->size() + t->size());
+                    t.destroy();
+                    t.release();
+                    resync();
+                    break;
+                }
                 if (v->size() > N)
                     bad("bounds", "size>N", "moved-from source reports size()=%zu", v->size());
                 verify(t, m, m.size() + v->size());
@@ -446,23 +690,45 @@ namespace c14
                 *v = (const SV &)r;
                 break;
             }
+            // constructors: when an element constructor throws the object never existed, the old container
+            // is still the current one and nothing of the failed object may stay alive
             case S_CTOR_RANGE:
                 if constexpr (has_range_ctor<SV, T>)
                 {
                     std::vector<int> ids = fresh_ids(o.a);
                     H w;
+                    bool thrown;
                     {
                         std::vector<T> src = mk(ids);
+                        const T *f = src.data();
                         if (o.b == 0)
                         {
                             std::list<T> lst(src.begin(), src.end());
-                            w.create(!boxed, [&](void *where) { return new (where) SV(lst.begin(), lst.end()); });
+                            thrown = guarded([&] { w.create(!boxed, [&](void *where) { return new (where) SV(lst.begin(), lst.end()); }); });
+                        }
+                        else if (o.b == 1)
+                            thrown = guarded([&] { w.create(!boxed, [&](void *where) { return new (where) SV(f, f + ids.size()); }); });
+                        else if (o.b == 2)
+                        {
+                            // single-pass input range: what was read must be the prefix, and at most min(len, N) + 1 reads
+                            InSrc<T> in{f, ids.size()};
+                            InIt<T> first{&in, 0}, last{};
+                            thrown = guarded([&] { w.create(!boxed, [&](void *where) { return new (where) SV(first, last); }); });
+                            VF_OK("range constructor driven by a single-pass input iterator");
                         }
                         else
                         {
-                            const T *f = src.data();
-                            w.create(!boxed, [&](void *where) { return new (where) SV(f, f + ids.size()); });
+                            FwdIt<T> first{f}, last{f + ids.size()};
+                            thrown = guarded([&] { w.create(!boxed, [&](void *where) { return new (where) SV(first, last); }); });
                         }
+                        for (size_t i = 0; i < ids.size(); i++)
+                            if (E::id(src[i]) != ids[i])
+                                bad("seq", "source-modified", "source element %zu became %d", i, E::id(src[i]));
+                    }
+                    if (thrown)
+                    {
+                        w.release();
+                        break;
                     }
                     replace(w);
                     boxed = !boxed;
@@ -474,13 +740,19 @@ namespace c14
                 {
                     std::vector<int> ids = fresh_ids(o.a);
                     H w;
-                    w.create(!boxed, [&](void *where) { return place_il_n<0>(where, ids); });
+                    if (create_il_n<0>(w, !boxed, ids))
+                    {
+                        w.release();
+                        break;
+                    }
                     replace(w);
                     boxed = !boxed;
                     m = clip(ids);
                 }
                 break;
             }
+            if (fault_fired)
+                VF_OK("an element constructor threw inside the operation");
             verify();
         }
         void finish()
@@ -554,8 +826,13 @@ namespace c14
             {
                 if (has_range_ctor<SV, T>)
                 {
-                    out.push_back({S_CTOR_RANGE, k, 0});
-                    out.push_back({S_CTOR_RANGE, k, 1});
+                    out.push_back({S_CTOR_RANGE, k, 1}); // const T*
+                    out.push_back({S_CTOR_RANGE, k, 2}); // harness single-pass input iterator
+                    if (full || k == NN + 1)
+                    {
+                        out.push_back({S_CTOR_RANGE, k, 0}); // std::list iterators
+                        out.push_back({S_CTOR_RANGE, k, 3}); // harness forward iterator
+                    }
                 }
                 if (has_il<SV, T>)
                     out.push_back({S_CTOR_IL, k, 0});
@@ -570,7 +847,7 @@ namespace c14
         static int depth() { return N <= 2 ? (vf::thorough() ? 4 : 3) : N == 3 ? (vf::thorough() ? 3 : 2) : 2; }
         // case = (placement, first operation[, slot of the second operation when depth >= 3]); the rest is
         // enumerated inside, so that one case stays a few thousand histories even at depth 4
-        static const int SLOTS = 64;
+        static const int SLOTS = 96;
         static uint64_t slots() { return depth() >= 3 ? SLOTS : 1; }
         static uint64_t count()
         {
@@ -722,13 +999,70 @@ namespace c14
                     overfull = true;
                 if ((o.kind == S_RESIZE || o.kind == S_CTOR_RANGE || o.kind == S_CTOR_IL) && (size_t)o.a > N)
                     overfull = true;
+                if constexpr (Hs::throwing)
+                    if (r.chance(1, 2))
+                    {
+                        h.fault_kind = 1 + (int)r.below(3);
+                        h.fault_countdown = 1 + (int)r.below(N + 2);
+                    }
                 h.apply(o);
+                if (h.fault_fired)
+                    overfull = true; // a history with an injected fault counts as non-trivial
                 hh = vf::mix(hh, vf::mix(o.kind, vf::mix(o.a, o.b)));
             }
             h.finish();
             vf::count_case(hh, overfull);
             if (vf::want_sample() && idx % 53 == 11)
                 vf::sample("random: %s N=%zu %.400s", Hs::flav().c_str(), N, h.trace.c_str());
+        }
+    };
+
+    // (d) T = Throwing: from every start size, every fault-relevant operation instance x fault kind x countdown,
+    //     followed by further operations and the destructor
+    template <class T, size_t N> struct SVFault
+    {
+        using Hs = SVHist<T, N>;
+        static uint64_t count() { return 2 * (N + 1); }
+        static bool relevant(int k)
+        {
+            return k == S_PUSH_FRESH || k == S_PUSH_ALIAS || k == S_EMPLACE_BACK || k == S_RESIZE || k == S_COPY_CTOR || k == S_MOVE_CTOR ||
+                   k == S_COPY_ASSIGN_FROM || k == S_COPY_ASSIGN_TO || k == S_MOVE_ASSIGN_FROM || k == S_MOVE_ASSIGN_TO || k == S_CTOR_RANGE || k == S_CTOR_IL;
+        }
+        static void run(uint64_t idx)
+        {
+            bool boxed = idx & 1;
+            int start = (int)(idx >> 1);
+            std::vector<Op> ops;
+            Hs::gen_ops_for((size_t)start, ops, false);
+            uint64_t n = 0, fired = 0;
+            for (auto &o : ops)
+            {
+                if (!relevant(o.kind))
+                    continue;
+                for (int kind = 1; kind <= 3; kind++)
+                    for (int c = 1; c <= (int)N + 2; c++)
+                    {
+                        Hs h;
+                        h.start(boxed);
+                        for (int i = 0; i < start; i++)
+                            h.apply({S_PUSH_FRESH, 0, 0});
+                        h.fault_kind = kind;
+                        h.fault_countdown = c;
+                        h.apply(o);
+                        bool f = h.fault_fired;
+                        // the container must remain fully usable
+                        h.apply({S_PUSH_FRESH, 0, 0});
+                        h.apply({S_RESIZE, (int)h.m.size() / 2, 0});
+                        h.apply({S_EMPLACE_BACK, 0, 0});
+                        h.finish();
+                        n++;
+                        fired += f;
+                    }
+            }
+            vf::count_bulk(n, fired);
+            if (vf::want_sample() && N == 3 && start == 2)
+                vf::sample("faults: %s N=%zu start size %d: every operation x {value,copy,move} constructor throwing at its 1st..%zu-th call: %llu histories, %llu with a throw",
+                           Hs::flav().c_str(), N, start, N + 2, (unsigned long long)n, (unsigned long long)fired);
         }
     };
 
@@ -779,3 +1113,6 @@ namespace c14
     VF_SUITE(enumerate_##tag, (c14::OverN<T, c14::SVEnum>::count), (c14::OverN<T, c14::SVEnum>::run))          \
     VF_SUITE(ctor_lengths_##tag, (c14::OverN<T, c14::SVCtor>::count), (c14::OverN<T, c14::SVCtor>::run))       \
     VF_SUITE(random_##tag, (c14::RandOverN<T>::count), (c14::RandOverN<T>::run))
+#define C14_SV_FAULT_SUITES(tag)                                                                                                 \
+    VF_SUITE(faults_enumerate_##tag, (c14::OverN<c14::Throwing, c14::SVFault>::count), (c14::OverN<c14::Throwing, c14::SVFault>::run)) \
+    VF_SUITE(faults_random_##tag, (c14::RandOverN<c14::Throwing>::count), (c14::RandOverN<c14::Throwing>::run))
